@@ -563,9 +563,9 @@ class BackendZ3(Backend):
         z3_sort = z3.Z3_get_sort(ctx, ast)
 
         if decl_num not in z3_op_nums:
-            raise ClaripyError(f"unknown decl kind {decl_num}")
+            raise BackendError(f"unknown decl kind {decl_num}")
         if op_map.get(z3_op_nums[decl_num]) is None:
-            raise ClaripyError(f"unknown decl op {z3_op_nums[decl_num]}")
+            raise BackendError(f"unknown decl op {z3_op_nums[decl_num]}")
         op_name = op_map[z3_op_nums[decl_num]]
 
         num_args = z3.Z3_get_app_num_args(ctx, ast)
